@@ -28,17 +28,21 @@ pub struct CcCase {
 }
 
 pub fn cc_strategy() -> BoxedStrategy<CcCase> {
+    cc_strategy_with(false)
+}
+
+pub fn cc_strategy_with(consumers: bool) -> BoxedStrategy<CcCase> {
     let pre_mix = Mix { append: 30, batch: 10, batch_many: 0, read_next: 0, batch_read: 0, max_batch: 4, ..Mix::consuming() };
     (
         cfg_strategy(3, mode_strategy()),
         proptest::collection::vec(op_strategy(&pre_mix, SizeProfile::Tiny), 0..6),
         proptest::collection::vec(proptest::option::weighted(0.3, 0u16..3000), 3),
-        proptest::collection::vec(proptest::collection::vec(top_strategy(true), 1..=4), 2..=3),
+        proptest::collection::vec(proptest::collection::vec(top_strategy(!consumers), 1..=4), 2..=3),
         proptest::collection::vec((0u8..4, 1u8..12), 0..40),
         any::<u16>(),
         any::<u16>(),
     )
-        .prop_map(|(cfg, pre, room, threads, sched, point, torn)| CcCase { conc: ConcCase { cfg, pre, room, threads, sched, producers_only: true, drain: vec![] }, point, torn })
+        .prop_map(move |(cfg, pre, room, threads, sched, point, torn)| CcCase { conc: ConcCase { cfg, pre, room, threads, sched, producers_only: !consumers, drain: vec![] }, point, torn })
         .boxed()
 }
 
@@ -115,6 +119,8 @@ pub struct CcObs {
     pub acked: Vec<(usize, usize)>,
     pub erred: Vec<(usize, usize)>,
     pub inflight: Vec<(usize, usize)>,
+    /// (len, hash) of the entries every acknowledged consuming read returned
+    pub returned: Vec<((usize, usize), Vec<(u64, u64)>)>,
     pub recovered: Option<Result<Vec<Vec<Ent>>, String>>,
     pub prefill_model: Option<InstModel>,
     pub harness: Option<String>,
@@ -188,7 +194,13 @@ pub fn crash_conc_run(case: &ConcCase, schedule: &[u8], plan: &str, base: &RunOp
             if let (Ok(t), Ok(i)) = (p[1].parse::<usize>(), p[2].parse::<usize>()) {
                 match (p[0], p.get(3).copied()) {
                     ("s", _) => started.push((t, i)),
-                    ("a", Some("ok")) => obs.acked.push((t, i)),
+                    ("a", Some("ok")) => {
+                        obs.acked.push((t, i));
+                        if let Some(list) = p.get(4) {
+                            let v: Vec<(u64, u64)> = list.split(',').filter_map(|x| x.split_once(':')).filter_map(|(a, b)| Some((a.parse().ok()?, b.parse().ok()?))).collect();
+                            obs.returned.push(((t, i), v));
+                        }
+                    }
                     ("a", Some("err")) => obs.erred.push((t, i)),
                     _ => {}
                 }
@@ -316,6 +328,133 @@ pub fn judge_cc(case: &ConcCase, obs: &CcObs) -> Result<(), String> {
     Ok(())
 }
 
+/// C09 with concurrent consumers. Strict: nothing a returned read delivered comes again, nothing
+/// is skipped beyond what the reads in flight at the crash may have taken (one entry per
+/// read_next, anything for a batch read). AtLeastOnce: nothing is skipped (same allowance).
+pub fn judge_cc_reads(case: &ConcCase, obs: &CcObs) -> Result<(), String> {
+    if let Some(m) = &obs.unexpected {
+        return Err(format!("the workload process ended on its own (not at the planned crash point): {}", m));
+    }
+    let rec = match &obs.recovered {
+        Some(Ok(r)) => r,
+        Some(Err(m)) => return Err(format!("recovery after the crash is not clean: {}", m)),
+        None => return Ok(()),
+    };
+    let strict = matches!(case.cfg.mode, Mode::Strict);
+    let model = obs.prefill_model.as_ref().unwrap();
+    let nt = model.topics.len();
+    let (threads, _) = concrete_threads(case, nt, 1_000);
+    let mut cache = HashMap::new();
+    for (ti, d) in rec.iter().enumerate() {
+        let t = ti as u32;
+        struct Exp {
+            id: EntId,
+            thread: usize,
+            ord: usize,
+            must: bool,
+            seen: bool,
+            consumed: bool,
+            what: String,
+        }
+        let mut exp: Vec<Exp> = Vec::new();
+        for (i, id) in model.topics[ti].appended.iter().enumerate() {
+            exp.push(Exp { id: id.clone(), thread: usize::MAX, ord: i, must: true, seen: false, consumed: false, what: format!("prefill#{}", i) });
+        }
+        let mut forbidden: Vec<(EntId, String)> = Vec::new();
+        let mut inflight_rn = 0usize;
+        let mut inflight_batch = false;
+        for (th, prog) in threads.iter().enumerate() {
+            let mut ord = 0usize;
+            for (i, op) in prog.iter().enumerate() {
+                let key = (th, i);
+                match op {
+                    Op::ReadNext { t: ot, .. } if *ot == t && obs.inflight.contains(&key) => inflight_rn += 1,
+                    Op::BatchRead { t: ot, .. } if *ot == t && obs.inflight.contains(&key) => inflight_batch = true,
+                    _ => {}
+                }
+                let (ot, ids) = entries_of(op, &mut cache);
+                if ot != t || ids.is_empty() {
+                    continue;
+                }
+                let (may, must) = if obs.acked.contains(&key) { (true, true) } else if obs.inflight.contains(&key) { (true, false) } else { (false, false) };
+                for (j, id) in ids.into_iter().enumerate() {
+                    let what = format!("T{}#{}[{}]", th, i, j);
+                    if may {
+                        exp.push(Exp { id, thread: th, ord, must, seen: false, consumed: false, what });
+                        ord += 1;
+                    } else {
+                        forbidden.push((id, what));
+                    }
+                }
+            }
+        }
+        // what returned reads of this topic delivered before the crash
+        for (key, list) in &obs.returned {
+            let Some(op) = threads.get(key.0).and_then(|p| p.get(key.1)) else { continue };
+            let on_t = matches!(op, Op::ReadNext { t: ot, .. } | Op::BatchRead { t: ot, .. } if *ot == t);
+            if !on_t {
+                continue;
+            }
+            for (len, hash) in list {
+                if let Some(x) = exp.iter_mut().find(|x| !x.consumed && x.id.len == *len && x.id.hash == *hash) {
+                    x.consumed = true;
+                }
+            }
+        }
+        let mut last_ord: HashMap<usize, usize> = HashMap::new();
+        let mut conc_seen = false;
+        for (pos, e) in d.iter().enumerate() {
+            // equal payloads (several empty entries) are interchangeable: a delivered copy is
+            // matched to a copy no returned read had delivered, if there is one
+            let pick = exp.iter().position(|x| !x.seen && !x.consumed && same(e, &x.id)).or_else(|| exp.iter().position(|x| !x.seen && same(e, &x.id)));
+            let ambiguous = pick.map(|i| exp.iter().filter(|y| y.id.len == exp[i].id.len && y.id.hash == exp[i].id.hash).count() > 1).unwrap_or(false);
+            if let Some(x) = pick.map(|i| &mut exp[i]) {
+                x.seen = true;
+                if ambiguous {
+                    // takes part in the exactly-once accounting only, not in order judgements
+                    if strict && x.consumed {
+                        return Err(format!("topic {}: StrictlyAtOnce - every copy of the payload of {} had been returned by consuming reads that completed before the crash, and one is delivered again after it (position {} of {})", t, x.what, pos, d.len()));
+                    }
+                    continue;
+                }
+                if x.thread == usize::MAX {
+                    if conc_seen {
+                        return Err(format!("topic {}: after the crash {} is delivered behind an entry appended later (position {})", t, x.what, pos));
+                    }
+                } else {
+                    conc_seen = true;
+                }
+                if let Some(lo) = last_ord.get(&x.thread) {
+                    if x.ord < *lo {
+                        return Err(format!("topic {}: after the crash {} is delivered behind a later entry of the same producer (position {})", t, x.what, pos));
+                    }
+                }
+                last_ord.insert(x.thread, x.ord);
+                if strict && x.consumed {
+                    return Err(format!("topic {}: StrictlyAtOnce - {} had been returned by a consuming read that completed before the crash and is delivered again after it (position {} of {})", t, x.what, pos, d.len()));
+                }
+            } else if let Some((_, w)) = forbidden.iter().find(|(id, _)| same(e, id)) {
+                return Err(format!("topic {}: after the crash the topic yields the entry of {} - an operation that had failed or never started", t, w));
+            } else if exp.iter().any(|x| same(e, &x.id)) {
+                return Err(format!("topic {}: after the crash an entry is delivered twice (position {}, len {})", t, pos, e.len));
+            } else {
+                return Err(format!("topic {}: after the crash the topic yields an entry nobody appended to it (position {}, len {}, head {})", t, pos, e.len, e.head));
+            }
+        }
+        let missing: Vec<&Exp> = exp.iter().filter(|x| x.must && !x.seen && !x.consumed).collect();
+        if !inflight_batch && missing.len() > inflight_rn {
+            return Err(format!(
+                "topic {}: {} acknowledged entries were neither returned by a read before the crash nor delivered after it ({} read_next in flight at the crash, no batch read): {:?}",
+                t,
+                missing.len(),
+                inflight_rn,
+                missing.iter().take(6).map(|x| x.what.clone()).collect::<Vec<_>>()
+            ));
+        }
+    }
+    Ok(())
+}
+
 fn mix(mut z: u64) -> u64 {
     z = z.wrapping_add(0x9E37_79B9_7F4A_7C15);
     z = (z ^ (z >> 30)).wrapping_mul(0xBF58_476D_1CE4_E5B9);
@@ -392,7 +531,14 @@ pub fn cc_case(prop: &str, c: &CcCase, base: &RunOpts, max_points: usize) -> Cas
         if obs.inflight.len() >= 2 {
             rep.features.insert("two_operations_in_flight".into());
         }
-        if let Err(msg) = judge_cc(&c.conc, &obs) {
+        let verdict = if c.conc.producers_only { judge_cc(&c.conc, &obs) } else { judge_cc_reads(&c.conc, &obs) };
+        if !obs.returned.is_empty() && !obs.inflight.is_empty() {
+            rep.features.insert("reads_returned_and_operation_inflight".into());
+            if !c.conc.producers_only {
+                nontrivial = true;
+            }
+        }
+        if let Err(msg) = verdict {
             let body = json!({
                 "kind": "crashconc",
                 "property": prop,
@@ -406,7 +552,7 @@ pub fn cc_case(prop: &str, c: &CcCase, base: &RunOpts, max_points: usize) -> Cas
                 "trace": obs.trace,
                 "opts": opts_json(base),
             });
-            rep.violation = Some((format!("[C07 concurrent] crash plan {} ({}): {}", plan, site, msg), body));
+            rep.violation = Some((format!("[{} concurrent] crash plan {} ({}): {}", prop, plan, site, msg), body));
             break;
         }
     }
@@ -424,7 +570,26 @@ pub fn replay(body: &Value) -> Result<Option<String>, String> {
     if let Some(h) = obs.harness {
         return Err(h);
     }
+    if !case.producers_only {
+        return Ok(judge_cc_reads(&case, &obs).err());
+    }
     Ok(judge_cc(&case, &obs).err())
+}
+
+pub fn search_consumers(ctx: &Ctx, cases: usize, points: usize) {
+    let prop = ctx.prop.clone();
+    let mut base = RunOpts::default();
+    base.exclude = exclusions_for(&ctx.prop);
+    let s = Search {
+        name: "concurrent-consumers".to_string(),
+        strategy: Box::new(|| cc_strategy_with(true)),
+        run: Box::new(move |c: &CcCase| cc_case(&prop, c, &base, points)),
+        cases,
+        workers: cores(),
+        max_shrink_iters: 60,
+        shrink_secs: 300,
+    };
+    run_search(ctx, &s);
 }
 
 pub fn search(ctx: &Ctx, cases: usize, points: usize) {
